@@ -76,7 +76,16 @@ def canon_category(nd, base_nd):
         return "other"
     a, b = nd["ops"][0], base_nd["ops"][0]
     if json.dumps(a["sel"], sort_keys=True) == json.dumps(b["sel"], sort_keys=True) and a["dirs"] == b["dirs"]:
-        return "variable-definitions"          # same selections, different variable definitions (left-over definitions keep their names)
+        # same selections, different variable definitions
+        va = [json.dumps(v, sort_keys=True) for v in a["vars"]]
+        vb = [json.dumps(v, sort_keys=True) for v in b["vars"]]
+        if sorted(va) == sorted(vb):
+            return "variable-definition-order"
+        used = json.dumps(a["sel"]) + json.dumps(a["dirs"])
+        extra = [v for v in a["vars"] + b["vars"] if json.dumps(v, sort_keys=True) not in set(va) & set(vb)]
+        if all(('"n": "%s"' % v["name"]) not in used for v in extra):
+            return "variable-definitions"      # the definitions that differ are left-over (unused) ones, which keep their user names
+        return "variable-definitions-other"
     def uniq(xs):
         seen, out = set(), []
         for x in xs:
@@ -108,6 +117,15 @@ def run(ctx):
     quick = ctx.quick()
     c04.check_admission_pin(ctx, c04.ADMISSION_PINNED)
     binary = ctx.build("norm")
+    if ctx.replay_in:
+        # bin/check C03 --replay <file>: run the one recorded operation through the sequence and judge it again
+        with open(ctx.replay_in) as f:
+            rc = json.load(f)["case"]
+        catalog_path, catalog = c04.load_catalog(ctx)
+        case = {"base": rc.get("base", "?"), "vi": rc.get("vi", 0), "steps": rc.get("steps", []), "canon": False, "schema": rc["schema"],
+                "doc": rc["doc"], "vars": rc.get("vars", []), "id": 1}
+        process(ctx, binary, catalog_path, [case], 1, 0)
+        return
     # ---- 1. model checking: the rewrite theorem ----------------------------------------------------
     ctx.tlc_must_pass("core", "MC_GQLCore", "MC_GQLCore.cfg", workers=4, timeout=600, tag="mc-core")
     ctx.tlc_must_pass("core", "MC_GQLRewrite", "MC_GQLRewrite_q.cfg" if quick else "MC_GQLRewrite.cfg", workers=6, timeout=3000,
@@ -125,6 +143,10 @@ def run(ctx):
         c["id"] = i + 1
     ctx.log("generated %d cases (%d one-step, %d sampled up to 3 steps), %d distinct" % (
         len(g1.printed) + len(g3.printed), len(g1.printed), len(g3.printed), len(cases)))
+    process(ctx, binary, catalog_path, cases, len(g1.printed), len(g3.printed))
+
+
+def process(ctx, binary, catalog_path, cases, n1, n3):
     # ---- 3. replay -------------------------------------------------------------------------------------
     cin, cout, ctr = ctx.path("c03-cases.ndjson"), ctx.path("c03-results.ndjson"), ctx.path("c03-trace.ndjson")
     lib.write_ndjson(cin, [{"id": c["id"], "schema": c["schema"], "doc": c["doc"], "vars": c["vars"]} for c in cases])
